@@ -203,6 +203,8 @@ func checkC20(p *core.Program, r *core.Report) {
 	r.Rule("R5", "every action struct field whose value reaches Run.EvaluateTemplate* carries engine:\"evaluated\" (else template-borne dependencies are invisible to inspection)")
 	r.Rule("R9", "the exits a resumed session can leave a wait by are exits of the waiting node: a category's exit is validated against the node's exits at load (imported from C01/R10), which is what makes `every exit of every waiting node` the complete list")
 	importObligations(p, r, "C01", map[string]bool{"R10": true}, "R9", "a wait can be left by an exit that inspection does not list")
+	r.Rule("R12", "every way a template can read a contact field is a way inspection knows: the paths through the run context that end at the contact's field values — computed from the map literals of the Context methods, starting at run.RootContext and following flows.Context(env, x) to the Context method of x's type and flows.ContextFunc to the method it is given — are all rows of inspect.fieldRefPaths (a path missing there reads a field at run time that the flow's dependencies do not list)")
+	c20R12(p, r)
 	r.Rule("R11", "a session is only resumed at a node that waits: tryToResume ends the session as failed when the node has no router or the router no wait (imported from C10/R3) — otherwise the resumed run leaves by the exits of a node whose exits inspection does not list as waiting exits")
 	importObligations(p, r, "C10", map[string]bool{"R3": true}, "R11", "a session can be resumed at a node without a wait")
 	r.Rule("R10", "what validation admits, inspection recognises: the spelling of a case's test type that SwitchRouter.Validate accepts is not laxer than the one Case.Dependencies / inspection compares — if any consumer of Case.Type compares it exactly, Validate looks it up exactly too (a type admitted only after lower-casing runs as has_group but its group is not listed as a dependency)")
@@ -1501,3 +1503,178 @@ func edgeLeavesLoop(start, header *ssa.BasicBlock) bool {
 	}
 	return walk(start)
 }
+
+// ---------------------------------------------------------------------------------------------- R12
+
+// c20ContextEdges: the properties a context-producing function puts into the map it returns, each with the function
+// that produces the context behind it (nil for plain values).
+func c20ContextEdges(p *core.Program, fn *ssa.Function) map[string][]*ssa.Function {
+	out := map[string][]*ssa.Function{}
+	if fn == nil || len(fn.Blocks) == 0 {
+		return out
+	}
+	ctxMethod := func(t types.Type) *ssa.Function {
+		for _, tt := range []types.Type{t, types.NewPointer(t)} {
+			if _, isPtr := t.(*types.Pointer); isPtr && tt != t {
+				continue
+			}
+			if sel := p.SSA.MethodSets.MethodSet(tt).Lookup(nil, "Context"); sel != nil {
+				return p.SSA.MethodValue(sel)
+			}
+		}
+		return nil
+	}
+	var targets func(v ssa.Value, seen map[ssa.Value]bool) []*ssa.Function
+	targets = func(v ssa.Value, seen map[ssa.Value]bool) []*ssa.Function {
+		if v == nil || seen[v] {
+			return nil
+		}
+		seen[v] = true
+		switch x := v.(type) {
+		case *ssa.Phi:
+			var o []*ssa.Function
+			for _, e := range x.Edges {
+				o = append(o, targets(e, seen)...)
+			}
+			return o
+		case *ssa.MakeInterface:
+			return targets(x.X, seen)
+		case *ssa.ChangeInterface:
+			return targets(x.X, seen)
+		case *ssa.Call:
+			o := core.CalleeObj(&x.Call)
+			if o == nil {
+				return nil
+			}
+			switch core.ObjName(o) {
+			case "flows.Context":
+				a := x.Call.Args[len(x.Call.Args)-1]
+				for {
+					if mi, ok := a.(*ssa.MakeInterface); ok {
+						a = mi.X
+						continue
+					}
+					if ci, ok := a.(*ssa.ChangeInterface); ok {
+						a = ci.X
+						continue
+					}
+					break
+				}
+				if m := ctxMethod(a.Type()); m != nil {
+					return []*ssa.Function{m}
+				}
+			case "flows.ContextFunc":
+				a := x.Call.Args[len(x.Call.Args)-1]
+				if mc, ok := a.(*ssa.MakeClosure); ok {
+					if f, ok := mc.Fn.(*ssa.Function); ok {
+						// a bound method wrapper calls the method
+						for _, cs := range core.Calls(f, false) {
+							if g := cs.Common().StaticCallee(); g != nil && f.Synthetic != "" {
+								return []*ssa.Function{g}
+							}
+						}
+						return []*ssa.Function{f}
+					}
+				}
+				if f, ok := a.(*ssa.Function); ok {
+					return []*ssa.Function{f}
+				}
+			}
+		}
+		return nil
+	}
+	core.EachInstr(fn, false, func(_ *ssa.Function, in ssa.Instruction) {
+		mu, ok := in.(*ssa.MapUpdate)
+		if !ok {
+			return
+		}
+		k, ok := core.ConstString(core.StripConv(mu.Key))
+		if !ok {
+			return
+		}
+		out[k] = append(out[k], targets(mu.Value, map[ssa.Value]bool{})...)
+	})
+	return out
+}
+
+func c20R12(p *core.Program, r *core.Report) {
+	root := p.Method("flows/runs", "run", "RootContext")
+	ipk := p.Pkg("flows/inspect")
+	if root == nil || ipk == nil {
+		r.Errorf("run.RootContext / package flows/inspect not found")
+		return
+	}
+	// the table
+	table := map[string]bool{}
+	var tablePos token.Pos
+	for _, file := range ipk.Syntax {
+		ast.Inspect(file, func(n ast.Node) bool {
+			vs, ok := n.(*ast.ValueSpec)
+			if !ok || len(vs.Names) != 1 || vs.Names[0].Name != "fieldRefPaths" || len(vs.Values) != 1 {
+				return true
+			}
+			cl, ok := vs.Values[0].(*ast.CompositeLit)
+			if !ok {
+				return true
+			}
+			tablePos = vs.Pos()
+			for _, row := range cl.Elts {
+				rl, ok := row.(*ast.CompositeLit)
+				if !ok {
+					continue
+				}
+				var parts []string
+				for _, e := range rl.Elts {
+					if tv, ok := ipk.TypesInfo.Types[e]; ok && tv.Value != nil {
+						parts = append(parts, constant.StringVal(tv.Value))
+					}
+				}
+				table[strings.Join(parts, ".")] = true
+			}
+			return false
+		})
+	}
+	if !r.Require("field_ref_path_rows", len(table), 1) {
+		return
+	}
+	// the context method that produces the contact's field values
+	isFields := func(f *ssa.Function) bool {
+		rn := recvNamed(f)
+		return rn != nil && rn.Obj().Name() == "FieldValues" && f.Name() == "Context"
+	}
+	found := map[string]bool{}
+	nProducers := map[*ssa.Function]bool{}
+	var walk func(f *ssa.Function, path []string)
+	walk = func(f *ssa.Function, path []string) {
+		nProducers[f] = true
+		if len(path) >= 4 {
+			return
+		}
+		edges := c20ContextEdges(p, f)
+		for _, k := range core.SortedKeys(edges) {
+			for _, g := range edges[k] {
+				np := append(append([]string{}, path...), k)
+				if isFields(g) {
+					found[strings.Join(np, ".")] = true
+					continue
+				}
+				walk(g, np)
+			}
+		}
+	}
+	walk(root, nil)
+	r.Count("context_producers_walked", len(nProducers))
+	if !r.Require("runtime_field_paths", len(found), 3) {
+		return
+	}
+	for _, path := range core.SortedKeys(found) {
+		if reason, ok := c20FieldPathAllowed[path]; ok && !table[path] {
+			r.OK("R12", "fieldRefPaths/"+path, p.Pos(tablePos), "listed: "+reason)
+			continue
+		}
+		r.Check(table[path], "R12", "fieldRefPaths/"+path, p.Pos(tablePos), "a row of fieldRefPaths", "a template can read a contact field as @"+path+".<key> (the run context has that path) but inspect.fieldRefPaths has no such row: the field is used at run time and missing from the flow's dependencies")
+	}
+}
+
+// c20FieldPathAllowed: runtime paths to contact fields that inspection deliberately does not follow.
+var c20FieldPathAllowed = map[string]string{}
